@@ -107,7 +107,7 @@ class SimThread:
 
 class Sched:
     def __init__(self, prefix=(), *, max_points=4000, max_timer_fires=300, timers='free',
-                 record=False, monitor=None, cond_timeout_window=False):
+                 record=False, monitor=None, cond_timeout_window=False, timer_window=None):
         self.threads: list[SimThread] = []
         self.by_ident = {}
         self.cur: SimThread | None = None
@@ -120,6 +120,7 @@ class Sched:
         self.max_timer_fires = max_timer_fires
         self.timer_fires = 0
         self.timers = timers
+        self.timer_window = timer_window
         self.error = None
         self.aborting = False
         self.finished_ok = False
@@ -166,8 +167,11 @@ class Sched:
         alts = [(t, 'run') for t in normal]
         if touts:
             touts.sort(key=lambda a: (a.deadline, a.idx))
-            if self.timers == 'all':
-                alts.extend((t, 'timeout') for t in touts)
+            if self.timers == 'all' and normal:
+                # "the others were slow": a deadline expires although threads could still run (one deviation);
+                # slowness is bounded by timer_window virtual seconds, so that 'unbounded' deadlines stay unbounded
+                w = self.timer_window
+                alts.extend((t, 'timeout') for t in touts if w is None or t.deadline - self.now <= w)
             elif not normal:
                 d0 = touts[0].deadline
                 alts.extend((t, 'timeout') for t in touts if t.deadline == d0)
@@ -861,7 +865,28 @@ def install(lib_prefixes=('mpservice',)):
     rebind(lib_prefixes)
 
 
-_IDENTITY_MAP = None
+_rederived = {}
+
+
+def _rederive(cls):
+    """Copy of a (small) class that subclasses the C type queue.SimpleQueue, on top of SimSimpleQueue."""
+    new = _rederived.get(cls)
+    if new is None:
+        new = type(cls.__name__, (SimSimpleQueue,), {})
+        for k, v in vars(cls).items():
+            if k in ('__dict__', '__weakref__', '__module__', '__doc__'):
+                continue
+            if isinstance(v, types.FunctionType) and '__class__' in v.__code__.co_freevars:
+                # zero-argument super(): give the copy its own __class__ cell
+                cells = tuple(types.CellType(new) if name == '__class__' else cell
+                              for name, cell in zip(v.__code__.co_freevars, v.__closure__))
+                f = types.FunctionType(v.__code__, v.__globals__, v.__name__, v.__defaults__, cells)
+                f.__kwdefaults__ = v.__kwdefaults__
+                v = f
+            setattr(new, k, v)
+        new.__module__ = cls.__module__
+        _rederived[cls] = new
+    return new
 
 
 def rebind(lib_prefixes):
@@ -880,8 +905,7 @@ def rebind(lib_prefixes):
             if new is None and isinstance(val, type) and val is not REAL.SimpleQueue \
                     and issubclass(val, REAL.SimpleQueue):
                 # e.g. class _SimpleThreadQueue(queue.SimpleQueue): re-derive on the simulated base
-                new = type(val.__name__, (SimSimpleQueue,), {k: v for k, v in vars(val).items()
-                                                              if k not in ('__dict__', '__weakref__')})
+                new = _rederive(val)
             if new is None and isinstance(val, real_lock_types):
                 new = SimLock() if isinstance(val, real_lock_types[0]) else SimRLock()
             if new is not None:
